@@ -44,12 +44,14 @@ def generate(ck, prop, tier, seed, map_entries=2):
     return vec
 
 
-def run(prop, tier, seed, rule, assumptions, shards=4, isolate=False, vlimit_kb=None, map_entries=2):
+def run(prop, tier, seed, rule, assumptions, shards=4, isolate=False, vlimit_kb=None, map_entries=2, extra_vec=None):
     ck = vlib.Check(prop, tier, seed)
     vec = generate(ck, prop, tier, seed, map_entries=map_entries)
     kept, total = vlib.cap_vectors(vec, 400000 if tier == "thorough" else 40000, seed, keep_first=ck.notes.get("first_part", 0))
     ck.notes["vectors_generated"], ck.notes["vectors_replayed"] = total, kept
     ck.exhaustive_replay = kept == total
+    if extra_vec:
+        extra_vec(ck, vec)      # further vectors, never sampled away
     ck.binary = vlib.build_harness()
     rr = vlib.run_harness(ck.binary, prop, vec, seed=seed, tier=tier, shards=shards, timeout=3000, isolate=isolate, vlimit_kb=vlimit_kb)
     os.unlink(vec)
